@@ -66,10 +66,15 @@ def posix_environment(
         # Escape environment variable name, unless it is one of a few special names
         if var not in ["!", "$"]:
             var = mach.escape(var)
-        # Add a space in front of the expanded environment variable to ensure
-        # values like `-E` will not get picked up as parameters by echo.  This
-        # space is then cut away again so calling tests don't notice this trick.
-        return mach.exec0("echo", linux.Raw(f'" ${{{var}}}"'))[1:-1]
+        # Print the value with `printf '%s\n'` and not with `echo`: the echo of
+        # some shells (dash, busybox ash) interprets backslash escapes, so a
+        # value like `a\nb` would come back with a real newline in it.
+        #
+        # A space is added in front of the expanded environment variable so
+        # the value can never be mistaken for an option, whatever it starts
+        # with.  This space and the newline printf appends are then cut away
+        # again so calling tests don't notice this trick.
+        return mach.exec0("printf", "%s\\n", linux.Raw(f'" ${{{var}}}"'))[1:-1]
 
 
 def shell_sanity_check(mach: M) -> None:
